@@ -92,6 +92,31 @@ pub fn exports(args: &Args, reg: &[TypeEntry], log: &mut Log) {
         std::fs::write(root.join("outside.txt"), b"outside\n").unwrap();
         let before_full = snapshot(&root);
         let before = files_only(&before_full);
+        // every other root: an earlier run (of a longer version of the same types) left files at the places this export
+        // writes to; they are not part of `before`, so what the export leaves there is examined like any file it wrote
+        let mut stale_seeded: BTreeMap<String, Vec<u8>> = BTreeMap::new();
+        if (k as u64 + args.seed) % 2 == 0 {
+            for dep in guarded(e.collect).unwrap_or_default() {
+                let rel = dep.output_path.to_string_lossy().to_string();
+                if dep.output_path.is_absolute() || rel.split('/').any(|c| c == ".." || c == "." || c.is_empty()) {
+                    continue;
+                }
+                let key = format!("{dname}/{rel}");
+                let target = root.join(&key);
+                if target.exists() || target.parent().map_or(true, |p| std::fs::create_dir_all(p).is_err()) {
+                    continue;
+                }
+                let mut stale = String::from("// This file was generated by [ts-rs](https://github.com/Aleph-Alpha/ts-rs). Do not edit this file manually.\n");
+                stale.push_str("import type { ZzLeftoverDep } from \"./ZzLeftoverDep\";\n\n/**\n * left by an earlier run\n */\nexport type ZzLeftover = {");
+                for i in 0..(40 + rng.below(200)) {
+                    stale.push_str(&format!(" leftover_field_{i}: Array<ZzLeftoverDep | null>,"));
+                }
+                stale.push_str(" };\n");
+                if std::fs::write(&target, stale.as_bytes()).is_ok() {
+                    stale_seeded.insert(key, stale.into_bytes());
+                }
+            }
+        }
         // every third root: one of its dependencies was exported alone earlier in the same process (into the same directory)
         let mut pre_exported: Option<String> = None;
         if k % 3 == 1 {
@@ -122,7 +147,13 @@ pub fn exports(args: &Args, reg: &[TypeEntry], log: &mut Log) {
         let after_full = snapshot(&root);
         // directories that exist now, hold nothing, and were not there before
         let stray_dirs: Vec<String> = after_full.keys().filter(|k| k.ends_with('/') && !before_full.contains_key(*k)).cloned().collect();
-        let after = files_only(&after_full);
+        let mut after = files_only(&after_full);
+        // a seeded leftover the export never touched counts as a file that was not written
+        let stale_untouched: Vec<String> = stale_seeded.iter().filter(|(p, b)| after.get(*p) == Some(*b)).map(|(p, _)| p.clone()).collect();
+        for p in &stale_untouched {
+            after.remove(p);
+            let _ = std::fs::remove_file(root.join(p));
+        }
         let mut files = BTreeMap::new();
         let mut untouched_ok = true;
         let mut removed = vec![];
@@ -185,6 +216,7 @@ pub fn exports(args: &Args, reg: &[TypeEntry], log: &mut Log) {
             "dir_spelling": spelling, "dname": dname, "via_default_dir": use_env, "pre_exported": pre_exported,
             "result": result_json,
             "files": files, "untouched_ok": untouched_ok, "removed": removed, "stray_dirs": stray_dirs, "reexport_after_delete": reexport,
+            "stale_seeded": stale_seeded.keys().collect::<Vec<_>>(), "stale_untouched": stale_untouched,
             "collected": collected, "dependencies": deps, "decl_free": decl_free, "decl": decl_text,
             "ident": ident, "output_path": output_path, "default_output_path": default_output_path,
         }));
